@@ -17,6 +17,9 @@ Definition mkreq (fs : list mfunc) (inp : env) (internal : shape_dict) : Run_C01
   {| c_funcs := fs; c_inputs := inp; c_internal := internal |}.
 
 Record mcase := { m_req : Run_C01.case;
+                  m_second : option (Run_C01.case * bool);
+                    (* a second map run on the same pipeline object: the request (the same one, or the one with a
+                       replaced function) and whether a mutation (which clears the cache) happened in between *)
                   m_noevict : bool   (* the cache of the cached twin never evicts (SimpleCache, DiskCache without
                                         max_size): the number of executions is observed *) }.
 
@@ -43,28 +46,39 @@ Definition all_calls (c : Run_C01.case) : result (list str) :=
                     (Ok ({| r_env := c_inputs c; r_shapes := init_shapes (c_inputs c); r_out := []; r_calls := 0 |}, []));
   Ok (snd r).
 
-(* observation: [ uncached: ok [results; ncalls] | err ;  cached: ok results | err ;  executions with cache or -1 ] *)
+(* observation per run: [ uncached: ok [results; ncalls] | err ;  cached: ok results | err ;  executions with cache or -1 ] *)
 Definition results_of (o : sx) : sx :=
   match o with
   | SL [SS t; res; SI _] => SL [SS t; res]
   | _ => o
   end.
+(* `seen`: the invocations whose entries are resident (never-evicting cache) *)
+Definition run_one (noev : bool) (seen : list str) (c : Run_C01.case) : sx * list str :=
+  let u := Run_C01.run c in
+  match all_calls c with
+  | Ok cs =>
+      let fresh := filter (fun x => negb (mem_str x seen)) (dedup cs) in
+      (SL [u; results_of u; if noev then SN (length fresh) else SI (-1)], seen ++ fresh)
+  | Err _ => (SL [u; results_of u; SI (-1)], seen)
+  end.
 Definition run (m : mcase) : sx :=
-  let u := Run_C01.run (m_req m) in
-  SL [u; results_of u;
-      if m_noevict m then
-        match all_calls (m_req m) with
-        | Ok cs => SN (length (dedup cs))
-        | Err _ => SI (-1)
-        end
-      else SI (-1)].
+  let '(o1, seen) := run_one (m_noevict m) [] (m_req m) in
+  match m_second m with
+  | None => SL [o1]
+  | Some (r2, cleared) => SL [o1; fst (run_one (m_noevict m) (if cleared then [] else seen) r2)]
+  end.
 
 (* the statement: whenever the uncached run succeeds, the cached run returns the same results, and it never
    executes more *)
-Definition spec_ok (m : mcase) (o : sx) : bool :=
+Definition one_ok (o : sx) : bool :=
   match o with
   | SL [SL [SS t; res; SI nu]; c; SI nc] =>
       if str_eqb t (s "ok") then sx_eqb c (SL [SS t; res]) && (nc <=? nu)%Z else true
   | SL [_; _; _] => true              (* the uncached run failed *)
+  | _ => false
+  end.
+Definition spec_ok (m : mcase) (o : sx) : bool :=
+  match o with
+  | SL l => (length l =? (match m_second m with None => 1 | Some _ => 2 end)) && forallb one_ok l
   | _ => false
   end.
